@@ -131,7 +131,7 @@ var c14Plain = []string{"counter.inc1", "counter.incmax", "counter.incmin", "map
 	// batches of no values at all: accepted or refused, but whatever the origin queues must survive the wire
 	"list.insert0", "list.update0", "doc.arrinsert0", "doc.arrupdate0", "tx-empty",
 	// range deletes whose targets come from one insert without being neighbours in its numbering
-	"doc.arrdelete-hole", "doc.arrdelete-nested", "list.deletemany-hole"}
+	"doc.arrdelete-hole", "doc.arrdelete-nested", "list.deletemany-hole", "tx-longtag"}
 
 func intKeyed(n int) map[int][]interface{} {
 	m := map[int][]interface{}{}
@@ -409,6 +409,9 @@ func c14Run(kind string, nv *namedValue) (v *pt.Violation, digest string, produc
 			e = errOf(ee)
 		case "tx-empty":
 			e = r0.li.Transaction("empty", func(l oListInTx) error { return nil })
+		case "tx-longtag":
+			// a tag of 300 bytes made of three-byte characters (any cut at a power of two falls inside a character)
+			e = r0.li.Transaction(strings.Repeat("한", 100), func(l oListInTx) error { l.Insert(0, "in-tx"); return nil })
 		case "tx":
 			e = r0.li.Transaction("t\"ag/~", func(l oListInTx) error {
 				l.Insert(0, "in-tx")
@@ -447,6 +450,18 @@ func c14Run(kind string, nv *namedValue) (v *pt.Violation, digest string, produc
 	ops := w.Pending(0)
 	if len(ops) == 0 {
 		return viol(sig("no-operation"), "%s produced no operation", kind), "", 0
+	}
+	if strings.HasPrefix(kind, "tx") {
+		// the tag the application gave its transaction is the tag every replica is told
+		given := map[string]string{"tx": "t\"ag/~", "tx-empty": "empty", "tx-longtag": strings.Repeat("한", 100)}[strings.SplitN(kind, "@", 2)[0]]
+		for _, m := range ops[pendingBefore:] {
+			if m.OpType == model.TypeOfOperation_TRANSACTION {
+				if tx, ok := operations.ModelToOperation(m).(*operations.TransactionOperation); ok && tx.GetBody().Tag != given {
+					return viol(sig("transaction-tag-changed"), "%s: the transaction was given the tag %q (%d bytes), its operation carries %q (%d bytes)", kind, clip(given, 80), len(given), clip(tx.GetBody().Tag, 80), len(tx.GetBody().Tag)), "", len(ops)
+				}
+				break
+			}
+		}
 	}
 	// value fidelity: what the origin reads back is the JSON image of what the caller passed
 	if nv != nil {
